@@ -226,7 +226,12 @@ func c5guided(r *rand.Rand, conjs []c5conj, depth int) c5data {
 }
 
 // ----- printing -----
-type c5printer struct{ defs []string }
+type c5printer struct {
+	defs []string
+	// a definition body that occurs several times in a case (same *c5sch) is one definition reached along
+	// several routes
+	names map[*c5sch]string
+}
 
 func (p *c5printer) val(v c5val) string {
 	if v.conj != nil {
@@ -262,7 +267,14 @@ func (p *c5printer) conj(c c5conj) string {
 	case "close":
 		return "close(" + p.sch(c.s) + ")"
 	default:
+		if n, ok := p.names[c.s]; ok {
+			return n
+		}
 		name := fmt.Sprintf("#D%d", len(p.defs))
+		if p.names == nil {
+			p.names = map[*c5sch]string{}
+		}
+		p.names[c.s] = name
 		p.defs = append(p.defs, "")
 		idx := len(p.defs) - 1
 		p.defs[idx] = name + ": " + p.sch(c.s)
@@ -1046,6 +1058,18 @@ func init() {
 		}
 		c.Set("deep_chain_cases", len(deep))
 		run(deep, false)
+		// wide schemas: one definition that embeds 2-28 mix-in definitions which all embed one shared base
+		// definition (the same definition reaches the struct along many routes), unified with a second closed
+		// conjunct: every present field has to be allowed by every closed conjunct however many there are
+		var wide []c5case
+		r = c.RNG("wide")
+		for i := 0; i < c.N(4000, 60000); i++ {
+			wide = append(wide, c5genWide(r))
+		}
+		c.Set("wide_schema_cases", len(wide))
+		run(wide, false)
+		wsrc, _ := wide[0].source()
+		c.Sample(map[string]any{"wide_case": wsrc})
 		src, _ := rnd[0].source()
 		c.Sample(map[string]any{"random_case": src})
 		if len(enum) > 0 {
@@ -1126,4 +1150,69 @@ func c5enumerate(labels []string) []c5case {
 		}
 	}
 	return out
+}
+
+// c5genWide: see the call site.
+func c5genWide(r *rand.Rand) c5case {
+	lf := func(l, m, leaf string) c5fld { return c5fld{l, m, c5val{leaf: leaf}} }
+	n := 2 + r.IntN(27)
+	base := &c5sch{fields: []c5fld{lf("id", "?", "string")}}
+	if r.IntN(4) == 0 {
+		base.pats = []c5pat{{`=~"^a"`, c5val{leaf: "int"}}}
+	}
+	all := &c5sch{}
+	for i := 0; i < n; i++ {
+		m := &c5sch{fields: []c5fld{lf(fmt.Sprintf("f%d", i), []string{"?", "?", "", "!"}[r.IntN(4)], "int")}}
+		if r.IntN(5) != 0 {
+			m.embeds = []c5conj{{"def", base}}
+		}
+		if i == n-1 && r.IntN(3) == 0 {
+			m.pats = []c5pat{{`"a"|"b"`, c5val{leaf: "int"}}}
+		}
+		all.embeds = append(all.embeds, c5conj{"def", m})
+	}
+	k := c5case{conjs: []c5conj{{"def", all}}}
+	// the second (and third) closed conjunct allows something else
+	other := func() c5conj {
+		o := &c5sch{fields: []c5fld{lf("g", "?", "int")}}
+		for j := 0; j < r.IntN(3); j++ {
+			o.fields = append(o.fields, lf(fmt.Sprintf("f%d", r.IntN(n)), "?", "int"))
+		}
+		if r.IntN(6) == 0 {
+			o.fields = append(o.fields, lf("id", "?", "string"))
+		}
+		if r.IntN(10) == 0 {
+			o.ellipsis = true
+		}
+		return c5conj{[]string{"def", "def", "close", "lit"}[r.IntN(4)], o}
+	}
+	for j := 0; j < r.IntN(3); j++ {
+		if r.IntN(2) == 0 {
+			k.conjs = append(k.conjs, other())
+		} else {
+			k.conjs = append([]c5conj{other()}, k.conjs...)
+		}
+	}
+	// data: the required fields, plus one or two fields that some conjunct does not know
+	k.data = c5data{}
+	for _, e := range all.embeds {
+		if f := e.s.fields[0]; f.marker == "!" || (f.marker == "" && r.IntN(2) == 0) {
+			k.data[f.label] = "1"
+		}
+	}
+	for j := 0; j < 1+r.IntN(2); j++ {
+		switch r.IntN(6) {
+		case 0:
+			k.data["g"] = "1"
+		case 1:
+			k.data["id"] = `"x"`
+		case 2:
+			k.data["zz"] = "1"
+		case 3:
+			k.data["a"] = "1"
+		default:
+			k.data[fmt.Sprintf("f%d", r.IntN(n))] = "1"
+		}
+	}
+	return k
 }
